@@ -7,6 +7,8 @@ import matrix
 import vlib
 
 NONCOPY = ["string", "tuple", "vec", "into_iter", "nc_vec", "map", "struct", "enum", "nc_tuple", "option"]
+PRIMS = ["i32", "char", "u8", "f64", "neg", "u64", "str_ref"]
+MUTREF = ("root_mut_ref", "mutref_field", "mutref_field_expr", "mutref_nested")
 WITNESS = {"id": "C09-closure-moves",
            "what": "a closure pattern at the root (or after a field operation) receives the asserted expression by value: "
                    "`assert_struct!(s, |x| x.len() > 0); drop(s)` does not compile for a String (E0382)"}
@@ -24,9 +26,12 @@ def run(res):
     kf = {f["id"] for f in vlib.load_known_findings()["findings"]}
 
     def compute():
-        cells = [c for c in matrix.cells(targets=NONCOPY, mismatches=False, extra_positions=("root_mut_ref",))]
+        cells = [c for c in matrix.cells(targets=NONCOPY, mismatches=False, extra_positions=MUTREF)]
         if res.tier == "quick":
             cells = [c for i, c in enumerate(cells) if c[2] in ("root", "root_mut_ref", "root_via_macro", "root_call", "root_field_expr", "root_deref", "root_ref", "field", "some", "slice_elem", "depth3") or i % 4 == 0]
+        # values that ARE Copy behind a `&mut` reference (a local, a struct field, the end of a field chain): the reference itself is
+        # not Copy, so a pattern that binds what it is given by value moves the reference out of the caller's place
+        cells += [c for c in matrix.cells(targets=PRIMS, positions=set(MUTREF), mismatches=False, extra_positions=MUTREF)]
         srcs = []
         for (t, f, pos, pat, m) in cells:
             srcs.append(matrix.program(t, pos, pat, reuse=False))
